@@ -9,8 +9,9 @@ Open Scope Z_scope.
 
 (* table.insert (list, [pos,] value): "Inserts element value at position pos
    in list, shifting up the elements list[pos], list[pos+1], ···, list[#list].
-   The default value for pos is #list+1".  pos must be in [1, #list+1]. *)
-Definition insert_pos_ok (L pos : Z) : bool := (1 <=? pos) && (pos <=? L + 1).
+   The default value for pos is #list+1".  pos must be in [1, #list+1].
+   The call must fail when #list+1 is not representable (#list = maxinteger). *)
+Definition insert_pos_ok (L pos : Z) : bool := (1 <=? pos) && (pos <=? L + 1) && (L + 1 <=? maxint).
 Definition insert_spec (m : tmap) (L pos : Z) (v : value) : tmap :=
   fun k => if k <? pos then m k
            else if k =? pos then v
